@@ -191,7 +191,8 @@ def _find(b, n):
 
 def in_domain_bib(case):
     _, key, flags, ctx, src, params, bnum, bflags, b, targets, inums, rounds = case
-    return (params is not None and params[0] is not None and params[0][1] in SHA and flags < 8 and (ctx & 1) == 1 and targets == inums
+    return (params is not None and params[0] is not None and params[0][1] in SHA and flags < 8 and (ctx & 1) == 1 and [n for n in inums if n in targets] == targets
+            and all(_find(b, n) is not None for n in inums)
             and len(targets) > 0 and all(_find(b, n) is not None for n in targets) and b["p"]["crc"] == ("N",)
             and all(_find(b, n) is not None for _, nums in rounds for n in nums))     # earlier rounds: any key, any existing blocks
 
@@ -237,12 +238,17 @@ def judge(line, out):
     assert t.next() == "BUNDLE"
     bundle = t.b()
     sh = (11, bnum, bflags)
-    if k != len(targets):
-        return "number of IPPTs differs from the number of targets"
-    for n, got in zip(targets, ippts):
+    if k != len(inums):
+        return "number of IPPTs differs from the number of blocks listed"
+    for n, got in zip(inums, ippts):
         want = ref_ippt(flags, b["p"], sh, _find(b, n))
         if got != want:
-            return "IPPT of target %d (%s) is not the RFC 9173 3.7 concatenation: %s, want %s" % (n, _find(b, n)["data"][0], got.hex()[:80], want.hex()[:80])
+            return "IPPT of block %d (%s) is not the RFC 9173 3.7 concatenation: %s, want %s" % (n, _find(b, n)["data"][0], got.hex()[:80], want.hex()[:80])
+    extra = len(inums) - len(targets)
+    ippts = [i for n, i in zip(inums, ippts) if n in targets]       # plaintexts of non-target blocks must not be signed
+    if nres != len(targets) and extra and not rounds:
+        return ("%d result sets for %d targets: the IPPT list also held %d plaintext(s) of blocks that are not targets of this BIB, "
+                "which must be skipped" % (nres, len(targets), extra))
     if nres != len(targets):
         if rounds:
             return ("%d result sets for %d targets after signing the same block %d times: compute_hmac must replace the results of an "
@@ -383,6 +389,14 @@ def _rnd_bib(rng, variant=None, key=None, flags=None, consistent=True, resign=0)
     wk = (2, bytes(rng.randrange(256) for _ in range(rng.choice([0, 24, 40])))) if rng.random() < 0.2 else None
     scope = (3, flags) if rng.random() < 0.85 else None
     params = ((1, variant), wk, scope)
+    others = [n for n in nums if n not in targets]
+    if consistent and others and rng.random() < 0.25:
+        # the application computed the IPPTs of all (or more) blocks once and hands the same list to this BIB: entries of
+        # non-target blocks must be skipped (targets keep their relative order)
+        extra = rng.sample(others, rng.randrange(1, len(others) + 1))
+        inums = list(targets)
+        for n in extra:
+            inums.insert(rng.randrange(0, len(inums) + 1), n)
     if not consistent:
         r = rng.random()
         if r < 0.25:
